@@ -19,6 +19,11 @@ def c07_ops(rng, tier):
         h, mi, s = rng.choice([(0, 0, 0), (11, 59, 59), (12, 0, 0), (12, 0, 1), (23, 59, 59), (rng.randint(0, 23), rng.randint(0, 59), rng.randint(0, 59))])
         L.append("jd.week %d %d %d %d %d %d" % (y, m, d, h, mi, s))
         L.append("jd.weekf %d %d" % (rng.randint(1721424, 5373484), rng.choice([0, 1, 43199, 43200, 43201, 86399, rng.randint(0, 86399)])))
+    # the sexagenary day taken from an instant view (23:xx carries the next day's pillar) and stepped
+    for _ in range(n // 6):
+        y, m, d = rand_date(rng, 2, 9998)
+        h = rng.choice([23, 23, 0, 22, rng.randint(0, 23)])
+        L.append("sch.daynext %d %d %d %d %d %d %d" % (y, m, d, h, rng.randint(0, 59), rng.randint(0, 59), rng.choice([0, 1, -1, 2, 30, -30, 365, rng.randint(-500, 500)])))
     L += ["jd.weekf 1721423 0", "jd.weekf 5373485 0", "jd.weekf 2460000 86400", "jd.week 2024 2 30 0 0 0", "jd.week 2024 1 1 24 0 0"]
     return L
 
@@ -33,7 +38,7 @@ PROP = {
                     "Tyme/Lemmas/LunarWalk.lean", "Tyme/Lemmas/Lunar.lean"],
     "gen": [gen_eph],
     "streams": [
-        {"name": "c07.days", "args_thorough": ["all"]},
+        {"name": "c07.days", "args_thorough": ["all"], "extra_years": True},
     ],
     "ops": c07_ops,
     "exhaustive": False,
